@@ -46,6 +46,18 @@ func c01Opts(c *rt.C) EngOpt {
 }
 
 func runC01(c *rt.C) {
+	if c.Index%8 == 7 {
+		// contended writers: the snapshot taken after quiescence must be self-consistent (Count = scan)
+		r := c.Rng
+		o := CtdOpt{Mem: memModes()[c.Index%3], KV: r.Intn(2) == 0, NWriters: pick(r, 2, 4, 8), NKeys: pick(r, 1, 2, 4, 8), Phases: 6 + r.Intn(6),
+			Mix: []string{"mixed", "pingpong", "alldelete"}[r.Intn(3)], Perturb: pick(r, 0, 1, 4), KeepSnaps: pick(r, 0, 2), OpsPerW: 30}
+		ce := NewContend(c, o)
+		ce.Run()
+		ce.Report("C01")
+		c.Sig("contend/mix=%s/w=%d/mem=%s", o.Mix, o.NWriters, o.Mem)
+		c.Evals(int64(ce.Histories))
+		return
+	}
 	e := NewEngine(c, c01Opts(c))
 	e.Run()
 	e.Report("C01")
